@@ -290,6 +290,18 @@ pub fn arbitrary_string<R: Rng>(rng: &mut R) -> String {
             }
             s.into_iter().collect()
         }
+        6 if rng.gen_range(0, 8) == 0 => {
+            // a long run the parser accepts, then one character it does not (or nothing): an
+            // error found far into a component (positions past 2^16, 2^17)
+            let unit = ["x+1/2", " ", "+", "-y", "1", "x", "*2", "/3"][rng.gen_range(0, 8)];
+            let n = [65_535usize, 65_536, 70_000, 131_072, 200_000][rng.gen_range(0, 5)] / unit.chars().count() + rng.gen_range(0, 3);
+            let tail = ["z", "?", "", ")", "\u{e9}"][rng.gen_range(0, 5)];
+            match rng.gen_range(0, 3) {
+                0 => format!("{}{},y", unit.repeat(n), tail),
+                1 => format!("x,{}{}", unit.repeat(n), tail),
+                _ => format!("({}{},y)", unit.repeat(n), tail),
+            }
+        }
         5 => {
             // division by zero, huge digit runs
             ["1/0,x", "x/0,0/0", "99999999999999999999999999,1", "x,y/0", "0/0,0/0", ",", ",,", "", "(", ")", "()", "(,)", "x,", ",y"][rng.gen_range(0, 14)].to_string()
@@ -350,7 +362,7 @@ pub fn sweep_codepoints(lo: u32, hi: u32, st: &mut Stats) {
 }
 
 pub fn run(ctx: &Ctx) {
-    ctx.set_rule("grammar strings are built from (terms, format) descriptions - every non-empty subset of {+-x, +-y, +-p[/q]} in every order, p in 0..9, q in 1..9, in either component against partner components, under 32 spacing/parenthesis/explicit-plus formats (thorough: all; quick: all components x 4 formats + random) - and the parsed map is compared at 6 points with the map the description denotes (1e-15); distinct = distinct strings; plus arbitrary strings (random bytes, unicode, 20k-char, unbalanced, division by zero) which must return Ok/Err without panicking; plus every one of the 1,112,064 Unicode scalar values placed alone at 9 parser positions (start, after a sign, after an operator, numerator, denominator, inside parentheses, between terms, end)");
+    ctx.set_rule("grammar strings are built from (terms, format) descriptions - every non-empty subset of {+-x, +-y, +-p[/q]} in every order, p in 0..9, q in 1..9, in either component against partner components, under 32 spacing/parenthesis/explicit-plus formats (thorough: all; quick: all components x 4 formats + random) - and the parsed map is compared at 6 points with the map the description denotes (1e-15); distinct = distinct strings; plus arbitrary strings (random bytes, unicode, 20k-char, 65k-200k-char runs of accepted characters ending in a rejected one, unbalanced, division by zero) which must return Ok/Err without panicking; plus every one of the 1,112,064 Unicode scalar values placed alone at 9 parser positions (start, after a sign, after an operator, numerator, denominator, inside parentheses, between terms, end)");
     ctx.assume("strings with whitespace outside the outer parentheses, coefficients other than +-1, or more than one constant per component are not taken to be in the grammar");
     let prev = panic::take_hook();
     panic::set_hook(Box::new(|_| {}));
